@@ -9,7 +9,7 @@ namespace ExprModel.Refine
 open ExprModel
 open ExprModel.Spec
 
-variable {c : Cfg} {P : Prog} {ctx : Ctx}
+variable {c : Cfg} {P : LProg} {ctx : Ctx}
 
 /-! ### lists -/
 
@@ -107,9 +107,11 @@ theorem call_tail (r : R Val) (name : String) (vs : List Val) (σ : SState) :
   cases callHappened r <;> cases r <;> rfl
 
 theorem sim_func {m : Meta} {name : String} {args : List Node} {fast : Bool} {ca : List LInstr} {kk : Nat}
-    (hargs : SimL c P ctx args ca) (hnp : NoPairs args) (hk : P.consts[kk]? = some (.call name args.length)) :
+    (hargs : SimL c P ctx args ca) (hnp : NoPairs args) (hk : P.consts[kk]? = some (.call name args.length))
+    (hbl : BlameOK c P (.func m name args fast)) :
     Sim c P ctx (.func m name args fast) (ca ++ [li m.loc (if fast then .callFast else .call) kk]) := by
   intro k st scs σ res σ' hcode hsc hev
+  have hev0 := hev
   rw [eval_func] at hev
   rcases SM.bind_cases hev with ⟨e, hae, rfl⟩ | ⟨vs, σ1, hav, hrest⟩
   · exact hargs k st scs σ _ _ hcode.left hsc hae
@@ -121,8 +123,8 @@ theorem sim_func {m : Meta} {name : String} {args : List Node} {fast : Bool} {ca
     obtain ⟨rfl, rfl⟩ := Prod.mk.inj hrest
     rw [← hlen] at hk
     cases fast
-    · exact (Runs.call (.inl rfl) hcode.right hk).to_ip (by ip_arith)
-    · exact (Runs.call (.inr rfl) hcode.right hk).to_ip (by ip_arith)
+    · exact (Runs.call (.inl rfl) hcode.right hk (hbl.of hev0)).to_ip (by ip_arith)
+    · exact (Runs.call (.inr rfl) hcode.right hk (hbl.of hev0)).to_ip (by ip_arith)
 
 theorem method_tail (w : World) (ns : Bool) (obj : Val) (name : String) (vs : List Val) (σ : SState) :
     ((if ns && obj.isNilLike then pure .nil
@@ -137,10 +139,11 @@ theorem method_tail (w : World) (ns : Bool) (obj : Val) (name : String) (vs : Li
 
 theorem sim_method {m : Meta} {x : Node} {name : String} {args : List Node} {nilsafe : Bool} {cx ca : List LInstr}
     {kk : Nat} (hx : Sim c P ctx x cx) (hargs : SimL c P ctx args ca) (hnp : NoPairs args)
-    (hk : P.consts[kk]? = some (.call name args.length)) :
+    (hk : P.consts[kk]? = some (.call name args.length)) (hbl : BlameOK c P (.method m x name args nilsafe)) :
     Sim c P ctx (.method m x name args nilsafe)
       (cx ++ ca ++ [li m.loc (if nilsafe then .methodNilSafe else .method) kk]) := by
   intro k st scs σ res σ' hcode hsc hev
+  have hev0 := hev
   rw [eval_method] at hev
   rcases SM.bind_cases hev with ⟨e, hxe, rfl⟩ | ⟨obj, σ1, hxv, hrest⟩
   · exact hx k st scs σ _ _ hcode.left.left hsc hxe
@@ -157,8 +160,8 @@ theorem sim_method {m : Meta} {x : Node} {name : String} {args : List Node} {nil
       obtain ⟨rfl, rfl⟩ := Prod.mk.inj hrest2
       rw [← hlen] at hk
       cases nilsafe
-      · exact (Runs.method (.inl ⟨rfl, rfl⟩) (hcode.right.cast (by ip_arith)) hk).to_ip (by ip_arith)
-      · exact (Runs.method (.inr ⟨rfl, rfl⟩) (hcode.right.cast (by ip_arith)) hk).to_ip (by ip_arith)
+      · exact (Runs.method (.inl ⟨rfl, rfl⟩) (hcode.right.cast (by ip_arith)) hk (hbl.of hev0)).to_ip (by ip_arith)
+      · exact (Runs.method (.inr ⟨rfl, rfl⟩) (hcode.right.cast (by ip_arith)) hk (hbl.of hev0)).to_ip (by ip_arith)
 
 /-! ### array and map literals -/
 
@@ -173,9 +176,11 @@ theorem alloc_tail (lim : Int) (n : Nat) (v : Val) (σ : SState) :
   · simp only [hb, ↓reduceIte]; rfl
 
 theorem sim_array {m : Meta} {xs : List Node} {cx : List LInstr} {kk : Nat}
-    (hxs : SimL c P ctx xs cx) (hnp : NoPairs xs) (hk : P.consts[kk]? = some (.int .int xs.length)) :
+    (hxs : SimL c P ctx xs cx) (hnp : NoPairs xs) (hk : P.consts[kk]? = some (.int .int xs.length))
+    (hbl : BlameOK c P (.array m xs)) :
     Sim c P ctx (.array m xs) (cx ++ [li m.loc .push kk, li m.loc .array]) := by
   intro k st scs σ res σ' hcode hsc hev
+  have hev0 := hev
   rw [eval_array] at hev
   rcases SM.bind_cases hev with ⟨e, hae, rfl⟩ | ⟨vs, σ1, hav, hrest⟩
   · exact hxs k st scs σ _ _ hcode.left hsc hae
@@ -188,12 +193,14 @@ theorem sim_array {m : Meta} {xs : List Node} {cx : List LInstr} {kk : Nat}
     rw [← hlen] at hk
     have hc := hcode.right
     refine Runs.push hc hk ?_
-    exact (Runs.array hc.tail3).to_ip (by ip_arith)
+    exact (Runs.array hc.tail3 (hbl.of hev0)).to_ip (by ip_arith)
 
 theorem sim_map {m : Meta} {ps : List Node} {cx : List LInstr} {kk : Nat}
-    (hps : SimL c P ctx ps cx) (hap : AllPairs ps) (hk : P.consts[kk]? = some (.int .int ps.length)) :
+    (hps : SimL c P ctx ps cx) (hap : AllPairs ps) (hk : P.consts[kk]? = some (.int .int ps.length))
+    (hbl : BlameOK c P (.map m ps)) :
     Sim c P ctx (.map m ps) (cx ++ [li m.loc .push kk, li m.loc .map]) := by
   intro k st scs σ res σ' hcode hsc hev
+  have hev0 := hev
   rw [eval_map] at hev
   rcases SM.bind_cases hev with ⟨e, hae, rfl⟩ | ⟨flat, σ1, hav, hrest⟩
   · exact hps k st scs σ _ _ hcode.left hsc hae
@@ -201,8 +208,19 @@ theorem sim_map {m : Meta} {ps : List Node} {cx : List LInstr} {kk : Nat}
     have hlen := evalList_length_pairs _ ps hap _ _ _ hav
     have hc := hcode.right
     refine Runs.push hc hk ?_
-    have hm := Runs.map (c := c) (st := st) (scs := scs) (σ := σ1) (lim := c.budget) hc.tail3 hlen
     rw [SM.bind_apply, SM.lift_apply] at hrest
+    have hb1 : RBlame P m.loc (buildMap flat) := by
+      intro e he; rw [he] at hrest; obtain ⟨rfl, rfl⟩ := Prod.mk.inj hrest; exact hbl _ _ _ _ hev0
+    have hb2 : ∀ mp, buildMap flat = .ok mp → (allocd σ1 ps.length ps.length).memory ≥ c.budget →
+        P.blame .budget m.loc := by
+      intro mp hmp hge
+      rw [hmp] at hrest
+      replace hrest : ((do SM.allocAfter c.budget ps.length ps.length
+                           pure (.map mp)) : SM Val) σ1 = (res, σ') := hrest
+      rw [alloc_tail, if_pos hge] at hrest
+      obtain ⟨rfl, rfl⟩ := Prod.mk.inj hrest
+      exact hbl _ _ _ _ hev0
+    have hm := Runs.map (c := c) (st := st) (scs := scs) (σ := σ1) (lim := c.budget) hc.tail3 hlen hb1 hb2
     cases hb : buildMap flat with
     | error e =>
       rw [hb] at hrest hm
